@@ -232,10 +232,24 @@ Section Printer.
                   let p2 := deallocate p1 (Some buf) in
                   Ok (false, set_buf (set_length p2 0) None)
               | Some newbuffer =>
-                  newbuffer' <- memcpy0 newbuffer buf (pb_offset p + 1) ;;
+                  newbuffer' <- (if 0 <? pb_length p then memcpy0 newbuffer buf (pb_offset p + 1)
+                                 else Ok newbuffer) ;;
                   let p2 := deallocate p1 (Some buf) in
                   Ok (true, set_buf (set_length p2 newsize) (Some newbuffer'))
               end
+    end.
+
+  (** the manual-growth branch of ensure as the pinned tree had it (finding F19: the memcpy of
+      offset + 1 bytes was not guarded by length > 0, so growing an EMPTY buffer —
+      cJSON_PrintBuffered(item, 0, fmt) with custom hooks — read one byte from a 0-byte block) *)
+  Definition ensure_grow_manual_pinned (p : printbuffer) (buf : bytes) (newsize : Z) : res (bool * printbuffer) :=
+    let '(nb, p1) := allocate p newsize in
+    match nb with
+    | None => let p2 := deallocate p1 (Some buf) in Ok (false, set_buf (set_length p2 0) None)
+    | Some newbuffer =>
+        newbuffer' <- memcpy0 newbuffer buf (pb_offset p + 1) ;;
+        let p2 := deallocate p1 (Some buf) in
+        Ok (true, set_buf (set_length p2 newsize) (Some newbuffer'))
     end.
 
   (** update_offset *)
